@@ -29,6 +29,7 @@ func c09(c *Ctx) {
 		"(time) validateTimestamps rejects exactly exp <= now-skew, nbf > now+skew, iat > now+skew (only with ExpectIssuedInThePast) and a missing exp unless allowed; 'now' is time.Now() taken inside the call unless FixedNow is set; NewValidator rejects skew > 10 minutes and does not sample the clock; " +
 		"(base64url/kid) JWT packages never use the standard base64 alphabet, and every key-ID-derived kid, on the signing, verifying and JWK-export side alike, is base64url(4-byte big-endian key ID); " +
 		"(jwkpublic) JWK export handles only public key types, rejects everything else and skips non-ENABLED entries. " +
+		"(strictdecode) Go's base64 decoders silently skip CR and LF; every direct base64 decode in the JWT packages is therefore preceded by a complete scan of the same string that fails on any character its predicate refuses, and the predicate (folded) refuses CR, LF, '=', '+', '/', space — token segments are decoded only through such a wrapper. " +
 		"Not decided: JSON/base64 decoding, claim round-trip, JWK field encoding values."
 	c09Order(c)
 	c09Header(c)
@@ -970,6 +971,7 @@ func c09Base64(c *Ctx) {
 		})
 	}
 	r.Min("C09.base64url", 5)
+	c09StrictDecode(c)
 	// key-ID derived kids
 	nKid := 0
 	for _, f := range p.SortedFuncs(core.Product) {
@@ -1116,4 +1118,166 @@ func c09JWKPublic(c *Ctx) {
 		}
 	})
 	r.Check(skip, "C09.jwkpublic", "C09.jwkpublic/status filter", p.FuncPos(f), "JWK export does not filter entries by KeyStatus() == Enabled", "entries compared with keyset.Enabled")
+}
+
+// c09StrictDecode: encoding/base64 decoders ignore '\r' and '\n' in the input,
+// so a compact JWS with line breaks inside a segment would decode to the same
+// bytes as the canonical one (many accepted spellings of one token). Every
+// direct decode call in the JWT packages must be dominated by a complete scan of
+// the same string: range over it, a predicate applied to every rune, an error
+// return when the predicate refuses — and the predicate refuses CR, LF and the
+// characters outside the unpadded URL-safe alphabet.
+func c09StrictDecode(c *Ctx) {
+	p, r := c.P, c.R
+	n := 0
+	for _, f := range p.SortedFuncs(core.Product) {
+		if !isJWTPkg(core.Rel(core.PkgOf(f))) {
+			continue
+		}
+		allInstrs(f, func(ins ssa.Instruction) {
+			call, ok := ins.(*ssa.Call)
+			if !ok {
+				return
+			}
+			nme := guard.CalleeName(&call.Call)
+			if nme != "(*encoding/base64.Encoding).DecodeString" && nme != "(*encoding/base64.Encoding).Decode" && nme != "(*encoding/base64.Encoding).AppendDecode" {
+				return
+			}
+			n++
+			src := call.Call.Args[len(call.Call.Args)-1]
+			key := fmt.Sprintf("C09.strictdecode/%s", core.FuncID(f))
+			why := "the decoded string is not scanned, character by character, before it is handed to the base64 decoder (which skips CR and LF)"
+			good := false
+			allInstrs(f, func(i2 ssa.Instruction) {
+				rg, isR := i2.(*ssa.Range)
+				if !isR || !guard.SameValue(rg.X, src) && guard.Strip(rg.X) != guard.Strip(src) {
+					return
+				}
+				// the loop: next := Next(rg); ok := extract 0; rune := extract 2
+				for _, ref := range *rg.Referrers() {
+					nx, isN := ref.(*ssa.Next)
+					if !isN {
+						continue
+					}
+					var okV, runeV ssa.Value
+					for _, r2 := range *nx.Referrers() {
+						if ex, isE := r2.(*ssa.Extract); isE {
+							switch ex.Index {
+							case 0:
+								okV = ex
+							case 2:
+								runeV = ex
+							}
+						}
+					}
+					if okV == nil || runeV == nil {
+						continue
+					}
+					// the decode call is reached only when the scan is exhausted: fact ok == false
+					exhausted := false
+					for _, fct := range guard.InstrFacts(call) {
+						if fct.Cond == okV && !fct.True {
+							exhausted = true
+						}
+					}
+					if !exhausted {
+						why = "the decoder can be reached before the scan of the string is complete"
+						continue
+					}
+					// predicate applied to the rune; refusal leads to a failing return
+					allInstrs(f, func(i3 ssa.Instruction) {
+						pc, isC := i3.(*ssa.Call)
+						if !isC || len(pc.Call.Args) != 1 || guard.Strip(pc.Call.Args[0]) != runeV {
+							return
+						}
+						g := pc.Call.StaticCallee()
+						if g == nil || g.Blocks == nil {
+							return
+						}
+						refuses := false
+						for _, ret := range guard.Returns(f) {
+							if !guard.DefinitelyFails(ret) {
+								continue
+							}
+							for _, fct := range guard.BlockFacts(ret.Block()) {
+								if c2, val, isB := guard.BoolCallFact(fct); isB && c2 == pc && !val {
+									refuses = true
+								}
+							}
+						}
+						if !refuses {
+							why = "a character the predicate refuses does not lead to an error"
+							return
+						}
+						// the loop continues only when the predicate accepted: every back edge has pred == true
+						ev := consteval.New()
+						bad := ""
+						for _, ch := range []rune{'\r', '\n', '=', '+', '/', ' ', '.', 0x80} {
+							outs, ok := ev.Eval(g, []consteval.Val{consteval.C(int64(ch))}, nil)
+							if !ok || len(outs) != 1 || outs[0].Results[0].K != consteval.Const || constant.BoolVal(outs[0].Results[0].C) {
+								bad = fmt.Sprintf("%q", ch)
+							}
+						}
+						okCh := true
+						for _, ch := range []rune{'a', 'Z', '0', '-', '_'} {
+							outs, ok := ev.Eval(g, []consteval.Val{consteval.C(int64(ch))}, nil)
+							if !ok || len(outs) != 1 || outs[0].Results[0].K != consteval.Const || !constant.BoolVal(outs[0].Results[0].C) {
+								okCh = false
+							}
+						}
+						if bad != "" {
+							why = "the character predicate " + g.Name() + " does not refuse " + bad
+							return
+						}
+						if okCh {
+							good = true
+						}
+					})
+				}
+			})
+			if !good {
+				// strings.ContainsFunc(s, isBad) == false / strings.IndexFunc(s, isBad) < 0 dominating the decode
+				for _, fct := range guard.InstrFacts(call) {
+					var sc *ssa.Call
+					if c2, val, isB := guard.BoolCallFact(fct); isB && !val && guard.CalleeName(&c2.Call) == "strings.ContainsFunc" {
+						sc = c2
+					}
+					if op, x, y, isC := guard.Cmp(fct); isC {
+						if c2, _ := guard.CallOf(x); c2 != nil && guard.CalleeName(&c2.Call) == "strings.IndexFunc" {
+							if k, isK := guard.ConstInt(y); isK && ((op == token.LSS && k == 0) || (op == token.EQL && k == -1)) {
+								sc = c2
+							}
+						}
+					}
+					if sc == nil || !(guard.SameValue(sc.Call.Args[0], src) || guard.Strip(sc.Call.Args[0]) == guard.Strip(src)) {
+						continue
+					}
+					var g *ssa.Function
+					switch fv := guard.Strip(sc.Call.Args[1]).(type) {
+					case *ssa.Function:
+						g = fv
+					case *ssa.MakeClosure:
+						g, _ = fv.Fn.(*ssa.Function)
+					}
+					if g == nil || g.Blocks == nil {
+						continue
+					}
+					ev := consteval.New()
+					okAll := true
+					for ch, wantBad := range map[rune]bool{'\r': true, '\n': true, '=': true, '+': true, '/': true, ' ': true, '.': true, 0x80: true, 'a': false, 'Z': false, '0': false, '-': false, '_': false} {
+						outs, ok := ev.Eval(g, []consteval.Val{consteval.C(int64(ch))}, nil)
+						if !ok || len(outs) != 1 || outs[0].Results[0].K != consteval.Const || constant.BoolVal(outs[0].Results[0].C) != wantBad {
+							okAll = false
+						}
+					}
+					if okAll {
+						good = true
+					}
+				}
+			}
+			r.Check(good, "C09.strictdecode", key, p.Pos(ins.Pos()), why, "complete scan with a predicate refusing CR, LF, '=', '+', '/', space dominates the decode")
+		})
+	}
+	r.Counts["base64_decode_sites"] = n
+	r.Min("C09.strictdecode", 2)
 }
